@@ -12,52 +12,66 @@ use world::{ConnId, DiskOp, Ev};
 
 /// Pieces with an acknowledged write of bytes hashing to the torrent's hash, maintained while
 /// walking the log.
-#[derive(Default)]
 pub struct Verified {
     pub set: BTreeSet<usize>,
-    /// piece file name suffix -> piece indices with that hash (computed once)
-    names: BTreeMap<String, Vec<usize>>,
+    /// path -> piece indices whose listed hash equals the hash of what the file holds now
+    content: BTreeMap<String, Vec<usize>>,
+    by_hash: BTreeMap<[u8; 20], Vec<usize>>,
+}
+
+impl Default for Verified {
+    fn default() -> Self {
+        Verified { set: BTreeSet::new(), content: BTreeMap::new(), by_hash: BTreeMap::new() }
+    }
 }
 
 impl Verified {
     /// Initial state: correct piece files left behind by an earlier run count as stored.
+    /// Nothing here depends on how the client names its piece files.
     pub fn start(v: &View) -> Verified {
         let mut s = Verified::default();
+        let t = &v.out.torrent;
+        for i in 0..t.pieces() {
+            s.by_hash.entry(t.piece_hashes[i]).or_default().push(i);
+        }
         for (i, kind) in &v.plan.preexisting {
-            if *kind == 0 && (*i as usize) < v.out.torrent.pieces() {
-                let t = &v.out.torrent;
-                let h = t.piece_hashes[*i as usize];
-                for j in 0..t.pieces() {
-                    if t.piece_hashes[j] == h {
-                        s.set.insert(j);
-                    }
-                }
+            let i = *i as usize;
+            if i < t.pieces() {
+                let path = format!("/sim/cwd/{}.piece", hex_upper(&t.piece_hashes[i]));
+                let idx = if *kind == 0 { s.by_hash.get(&t.piece_hashes[i]).cloned().unwrap_or_default() } else { vec![] };
+                s.content.insert(path, idx);
             }
         }
+        s.recompute();
         s
+    }
+
+    fn recompute(&mut self) {
+        self.set = self.content.values().flatten().cloned().collect();
     }
 
     pub fn on_event(&mut self, v: &View, ev: &Ev) {
         if let Ev::Disk { op: DiskOp::Write, path, ok: true, data, .. } = ev {
-            let t = &v.out.torrent;
-            if self.names.is_empty() {
+            if self.by_hash.is_empty() {
+                let t = &v.out.torrent;
                 for i in 0..t.pieces() {
-                    self.names.entry(format!("{}.piece", hex_upper(&t.piece_hashes[i]))).or_default().push(i);
+                    self.by_hash.entry(t.piece_hashes[i]).or_default().push(i);
                 }
             }
-            let file = path.rsplit('/').next().unwrap_or("");
-            if let Some(idx) = self.names.get(file) {
-                // the file now holds `data`, whatever it held before
-                let h = sha1(data);
-                for i in idx.clone() {
-                    if t.piece_hashes[i] == h {
-                        self.set.insert(i);
-                    } else {
-                        self.set.remove(&i);
-                    }
-                }
+            // the file now holds `data`, whatever it held before
+            let idx = self.by_hash.get(&sha1(data)).cloned().unwrap_or_default();
+            let old = self.content.insert(path.clone(), idx.clone());
+            if old.as_ref().map(|o| !o.is_empty()).unwrap_or(false) {
+                self.recompute();
+            } else {
+                self.set.extend(idx);
             }
         }
+    }
+
+    /// Does `path` currently hold the verified data of some piece?
+    pub fn holds_piece(&self, path: &str) -> bool {
+        self.content.get(path).map(|i| !i.is_empty()).unwrap_or(false)
     }
 }
 
@@ -382,7 +396,6 @@ impl Check for C01 {
         vd.class = geometry_class(v.plan);
         let t = &v.out.torrent;
         let mut ver = Verified::start(v);
-        let name_of = |i: usize| format!("/sim/cwd/{}.piece", hex_upper(&t.piece_hashes[i]));
         let mut scratch = Verdict::default();
         let tw = tiling_walk(v, &mut scratch, false);
         for TL { seq, k, .. } in &v.tl {
@@ -408,31 +421,31 @@ impl Check for C01 {
                 TK::Raw(i) => {
                     let ev = v.ev(*i);
                     match ev {
-                        Ev::Disk { op: DiskOp::Write, path, ok: true, data, .. } if path.ends_with(".piece") => {
+                        // every whole-file write of the client is a piece store (the output files
+                        // are written by the extractor through another interface)
+                        Ev::Disk { op: DiskOp::Write, path, ok: true, data, .. } => {
                             let h = sha1(data);
-                            let named_ok = path.ends_with(&format!("/{}.piece", hex_upper(&h)));
                             let known = t.piece_hashes.iter().any(|x| *x == h);
-                            if !named_ok || !known {
+                            if !known {
                                 vd.fail(
                                     "C01",
                                     "C01.stored-unverified",
-                                    format!("{} stored with {} bytes hashing to {} (listed in the torrent: {})", path, data.len(), hex_upper(&h), known),
+                                    format!("{} stored with {} bytes hashing to {}, which is no piece hash of the torrent", path, data.len(), hex_upper(&h)),
                                     seq,
                                 );
                             }
                         }
                         Ev::Disk { op: DiskOp::Write, ok: false, .. } => vd.probe("disk_write_failed"),
-                        // the extractor touches a piece (successfully or not) that is not stored
-                        Ev::Disk { op: DiskOp::Open, path, .. } if path.ends_with(".piece") => {
-                            if let Some(i) = (0..t.pieces()).find(|i| name_of(*i) == *path) {
-                                if !ver.set.contains(&i) {
-                                    vd.fail(
-                                        "C01",
-                                        "C01.extract-unverified",
-                                        format!("output files are being assembled from piece {} ({}) although no verified copy of it is stored", i, path),
-                                        seq,
-                                    );
-                                }
+                        // the extractor reads (or tries to read) a piece file that does not hold
+                        // verified data
+                        Ev::Disk { op: DiskOp::Open, path, .. } => {
+                            if !ver.holds_piece(path) {
+                                vd.fail(
+                                    "C01",
+                                    "C01.extract-unverified",
+                                    format!("output files are being assembled from {} although it holds no verified piece data", path),
+                                    seq,
+                                );
                             }
                         }
                         Ev::Snapshot(s) => {
@@ -457,10 +470,10 @@ impl Check for C01 {
         // final state: every piece the client counts as owned is really on the disk
         let last_seq = v.out.entries.last().map(|e| e.seq).unwrap_or(0);
         let owned: BTreeSet<usize> = v.out.entries.iter().filter_map(|e| if let Ev::PieceDone { index, .. } = &e.ev { Some(*index) } else { None }).collect();
+        let on_disk: BTreeSet<[u8; 20]> = v.out.files.values().map(|d| sha1(d)).collect();
         for i in owned {
-            let ok = v.out.files.get(&name_of(i)).map(|d| sha1(d) == t.piece_hashes[i]).unwrap_or(false);
-            if !ok {
-                vd.fail("C01", "C01.owned-piece-not-on-disk", format!("piece {} is counted as owned but {} does not hold data with its hash", i, name_of(i)), last_seq);
+            if !on_disk.contains(&t.piece_hashes[i]) {
+                vd.fail("C01", "C01.owned-piece-not-on-disk", format!("piece {} is counted as owned but no file on the disk holds data with its hash", i), last_seq);
             }
         }
         if !v.plan.preexisting.is_empty() {
